@@ -1,11 +1,56 @@
 /-
   ArcheModel.GenPrelude — the only hand-written support the regenerated modules (ArcheGen) use:
-  `math/bits.OnesCount64` as a definition (validated against the Go function by the harness).
+  `math/bits.OnesCount64` as a definition (validated against the Go function by the harness), and
+  the Go slice / fixed array / index operations the imperative translator (extract/imper.go) emits:
+  `none` stands for the run-time panic (index out of range, `make` with len > cap).
 -/
 namespace ArcheGen
 
 /-- `bits.OnesCount64`, as an `Int` (Go `int`). -/
 def popcount64 (x : BitVec 64) : Int :=
   Int.ofNat ((List.range 64).filter (fun i => x.getLsbD i)).length
+
+
+/-- a Go slice: the elements `s[0:len]` and the capacity. Growth of `append` beyond the capacity
+    is runtime-specific in Go; it is modelled as minimal growth (only the elements are exact then). -/
+structure GoSlice (α : Type) where
+  arr : Array α
+  cap : Nat
+deriving Repr, DecidableEq
+
+instance {α : Type} : Inhabited (GoSlice α) := ⟨⟨#[], 0⟩⟩
+
+namespace GoSlice
+variable {α : Type}
+def size (s : GoSlice α) : Nat := s.arr.size
+/-- `s[i]`; `none` = index out of range -/
+def get (s : GoSlice α) (i : Nat) : Option α := s.arr[i]?
+/-- `s[i] = v` -/
+def set (s : GoSlice α) (i : Nat) (v : α) : Option (GoSlice α) :=
+  if i < s.arr.size then some { s with arr := s.arr.setIfInBounds i v } else none
+/-- `make([]T, len, cap)` -/
+def make [Inhabited α] (len cap : Int) : Option (GoSlice α) :=
+  if 0 ≤ len ∧ len ≤ cap then some ⟨Array.replicate len.toNat default, cap.toNat⟩ else none
+/-- `append(s, v)` -/
+def append (s : GoSlice α) (v : α) : GoSlice α :=
+  ⟨s.arr.push v, if s.arr.size < s.cap then s.cap else s.arr.size + 1⟩
+/-- `copy(dst, src)`: the first `min(len(dst), len(src))` elements -/
+def copy (dst src : GoSlice α) : GoSlice α :=
+  { dst with arr := Array.ofFn (n := dst.arr.size) (fun i => if h : i.val < src.arr.size then src.arr[i.val] else dst.arr[i]) }
+/-- `s[:hi]` for `hi ≤ len(s)` (re-slicing into the hidden capacity is refused) -/
+def «prefix» (s : GoSlice α) (hi : Int) : Option (GoSlice α) :=
+  if 0 ≤ hi ∧ hi.toNat ≤ s.arr.size then some ⟨s.arr.extract 0 hi.toNat, s.cap⟩ else none
+end GoSlice
+
+namespace GoArr
+variable {α : Type}
+/-- `a[i]` on a fixed-size array -/
+def get (a : Array α) (i : Nat) : Option α := a[i]?
+def set (a : Array α) (i : Nat) (v : α) : Option (Array α) :=
+  if i < a.size then some (a.setIfInBounds i v) else none
+end GoArr
+
+/-- an `int` used as an index: negative panics -/
+def GoInt.toIndex (i : Int) : Option Nat := if 0 ≤ i then some i.toNat else none
 
 end ArcheGen
